@@ -126,7 +126,11 @@ func genC14(cw *caseWriter, seed uint64, tier string) {
 			"2021-11-07T01:30:00-04:00", "2021-11-07T01:30:00-05:00", "2021-03-14T02:30:00-05:00", "2021-03-14T03:30:00-04:00", "2021-09-24T21:21:00Z", "2021-09-24T21:21:00.999+05:30", "2021-09-24T21:21:00,5-03:00",
 			"0001-01-01T00:00:00Z", "9999-12-31T23:59:59Z", "1969-12-31T23:59:58.500Z", "2300-01-01T00:00:00Z", "1600-02-29T12:00:00+14:00", "2021-06-01T12:00:00+02:00", "2021-06-01T10:00:00Z"}
 		ins := []colDesc{{name: "c", format: "datetime", ty: "none"}, {name: "c", format: "datetime", ty: "time"}, {name: "c", format: "auto", ty: "time"}, {name: "c", format: "string", ty: "time"}}
-		outs := []colDesc{{name: "c", format: "datetime", ty: "none"}, {name: "c", format: "timestamp", ty: "none"}, {name: "c", format: "string", ty: "time"}, {name: "c", format: "datetime", ty: "time"}, {name: "c", format: "timestamp", ty: "i64"}}
+		outs := []colDesc{{name: "c", format: "datetime", ty: "none"}, {name: "c", format: "timestamp", ty: "none"}, {name: "c", format: "string", ty: "time"}, {name: "c", format: "datetime", ty: "time"}, {name: "c", format: "timestamp", ty: "i64"},
+			// raw types that cannot hold a time.Time (the cast fails and the value is kept as it is): the offset and the
+			// instant must still come out as they went in
+			{name: "c", format: "datetime", ty: "i64"}, {name: "c", format: "datetime", ty: "int"}, {name: "c", format: "datetime", ty: "f64"}, {name: "c", format: "datetime", ty: "u32"},
+			{name: "c", format: "timestamp", ty: "f32"}, {name: "c", format: "timestamp", ty: "f64"}, {name: "c", format: "timestamp", ty: "int"}, {name: "c", format: "timestamp", ty: "u64"}, {name: "c", format: "timestamp", ty: "i16"}}
 		for _, txt := range colTexts {
 			for _, ci := range ins {
 				for _, co := range outs {
